@@ -7,6 +7,7 @@ Tree JSON: {"fn":{name,beh}} | {"conv":{name,beh,ts,tf}} | {"pipe":{"cs":[..]}} 
 from __future__ import annotations
 
 import itertools
+import json
 import sys
 import types
 
@@ -239,6 +240,8 @@ def make_class(case, make_conv, default=attr.NOTHING):
             if default is not attr.NOTHING:
                 fkw["default"] = default
                 seen_default = True
+                if cfg.get("init_false"):
+                    fkw["init"] = False      # the default is converted by __init__ all the same, per instance
             if cfg.get("kw_only"):
                 fkw["kw_only"] = True
             if hooks is not None:
@@ -310,9 +313,15 @@ def observe(case):
             flds = case["flds"]
             shared = [f["name"] for f in flds if f["shared"]]
             if mode == "initDefault" and cfg.get("dflt_style", "value") == "value":
+                # one class per distinct default; a default that comes again is another instance of the SAME
+                # class: every instance must be converted on its own (calls, fresh factory results)
+                classes = {}
                 for val in case["inputs"]:
                     v = decode(val)
-                    cls = make_class(case, conv, default=v)
+                    key = json.dumps(val, sort_keys=True)
+                    cls = classes.get(key)
+                    if cls is None:
+                        cls = classes[key] = make_class(case, conv, default=v)
                     results.extend(_run_init(cls, flds, None, use_default=True))
             else:
                 cell = [None]
@@ -342,6 +351,10 @@ def observe(case):
                             if any(i is not o for i in CUR["insts"][n0:]):
                                 LOG.append("!wrong-instance")
         return {"results": results, "trace": list(LOG)}
+    except BaseException as e:  # noqa: BLE001
+        # nothing outside a use of the converter may run a callback (class construction, building the combinators):
+        # report it as an outcome of its own instead of letting it escape
+        return {"results": results + ["!outside-use:" + _exc_text(e)], "trace": list(LOG)}
     finally:
         del LOG[:], RAISED[:]
         REG.clear(), TOKS.clear(), FNS.clear()
@@ -442,6 +455,7 @@ def rand_cfg(rng, mode):
         "exc": rng.choice(list(EXC_CLASSES)),
         "rebuild": rng.random() < 0.3,
         "share": rng.choice(["object", "object", "object", "rebuilt"]),
+        "init_false": rng.random() < 0.4,
     }
 
 
@@ -506,7 +520,14 @@ def gen_cases(tier, rng):
                {"name": "_p", "shared": True}]
     for t in small_trees(2 if tier == "quick" else 3):
         for mode in MODES:
-            yield mk_case(rng, t, mode, list(std_inputs))
+            c = mk_case(rng, t, mode, list(std_inputs))
+            if mode == "initDefault":
+                for i in (False, True):
+                    for d in ("value", "factory"):
+                        c2 = dict(c, cfg=dict(c["cfg"], init_false=i, dflt_style=d))
+                        yield c2
+            else:
+                yield c
             if mode != "standalone":
                 # one converter object on three fields of the class (and a field with its own converter between)
                 fl = several if mode in ("init", "initDefault") else [f for f in several if f["shared"]]
@@ -522,6 +543,26 @@ def gen_cases(tier, rng):
         if rng.random() < 0.5 and "pipe" not in t and "optional" not in t:
             t = {"pipe": {"cs": [rand_tree(rng, depth - 1, p_fault), t]}}
         yield mk_case(rng, t)
+    # freshness: converters that produce a new object per use (default_if_none(factory=...) alone, in pipes, under
+    # optional, next to Converters), used repeatedly on None -- several instances of ONE class (init=True and
+    # init=False defaults, plain and Factory defaults), several assignments to one instance, several direct calls
+    g = {"dinF": {"g": "g1", "beh": "term"}}
+    f = {"fn": {"name": "f1", "beh": "term"}}
+    fn_none = {"fn": {"name": "f2", "beh": "none"}}
+    fresh_trees = [g, {"pipe": {"cs": [g]}}, {"pipe": {"cs": [g, f]}}, {"pipe": {"cs": [fn_none, g]}},
+                   {"pipe": {"cs": [{"optional": {"c": f}}, g, f]}},
+                   {"pipe": {"cs": [g, {"conv": {"name": "f3", "beh": "term", "ts": True, "tf": True}}]}},
+                   {"pipe": {"cs": [{"conv": {"name": "f3", "beh": "none", "ts": False, "tf": False}}, g]}},
+                   {"pipe": {"cs": [{"pipe": {"cs": [g]}}, {"dinF": {"g": "g2", "beh": "term"}}]}}]
+    for t in fresh_trees:
+        for mode in MODES:
+            variants = [{}]
+            if mode == "initDefault":
+                variants = [{"init_false": i, "dflt_style": d} for i in (False, True) for d in ("value", "factory")]
+            for var in variants:
+                c = mk_case(rng, t, mode, ["none", "none", {"v": {"s": "t0"}}, "none"])
+                c["cfg"].update(var)
+                yield c
     # falsy-but-not-None sweep for default_if_none / optional directly
     for d in DFLT_POOL:
         for mode in MODES:
@@ -565,6 +606,8 @@ def dist(case, obs):
         "conv.n_inputs": len(case["inputs"]),
         "conv.outcome": "fault" if any(r.startswith("!") for r in res) else "ok",
         "conv.api": case.get("cfg", {}).get("api"),
+        "conv.init_false": bool(case.get("cfg", {}).get("init_false")) if case["mode"] == "initDefault" else "-",
+        "conv.repeated_input": len({json.dumps(i, sort_keys=True) for i in case["inputs"]}) < len(case["inputs"]),
         "conv.n_sharing_fields": sum(1 for f in case["flds"] if f["shared"]),
         "conv.n_other_fields": sum(1 for f in case["flds"] if not f["shared"]),
         "conv.exc_class": case.get("cfg", {}).get("exc") if any(r.startswith("!") for r in res) else "-",
@@ -604,7 +647,7 @@ def shrink(case):
             yield dict(case, flds=rest)
     base = {"api": "attr.s", "slots": None, "frozen": False, "kw_only": False, "hook": "cls", "hook_pipe": False,
             "list_form": None, "dflt_style": "value", "dinf": "kw", "din_pos": False, "exc": "UserError",
-            "rebuild": False, "share": "object"}
+            "rebuild": False, "share": "object", "init_false": False}
     cfg = case.get("cfg", {})
     for k, v in base.items():
         if cfg.get(k) != v:
